@@ -563,7 +563,7 @@ class Engine:
         if k in ('arr', 'vec'):
             es = size_of(t.b)
             return ('aggv', [s.load(st, Ptr(p.obj, p.off + j * es), t.b) for j in range(t.a)])
-        size = size_of(t)
+        size = (t.a + 7) // 8 if k == 'int' else size_of(t)  # integers: store size, not alloc size (i104 is 13 bytes)
         o = s.obj_of(st, p, size, 'load')
         if not isinstance(p, Ptr):
             p = s.i2p(st, p)
@@ -666,7 +666,7 @@ class Engine:
             for j in range(t.a):
                 s.store(st, Ptr(p.obj, p.off + j * es), t.b, v[1][j])
             return
-        size = size_of(t)
+        size = (t.a + 7) // 8 if k == 'int' else size_of(t)
         o = s.obj_of(st, p, size, 'store')
         if not isinstance(p, Ptr):
             p = s.i2p(st, p)
